@@ -3,8 +3,10 @@
 package websockets
 
 import (
+	"bytes"
 	"context"
 	"errors"
+	"io"
 	"net"
 	"net/http"
 	"net/http/httptest"
@@ -36,9 +38,17 @@ func TestVerifC13(t *testing.T) {
 	defer func() { websocket.DefaultDialer = old }()
 	const backend = "backend.verif:1234"
 	var wrappedSeen []string
+	var wrappedBody int64 = -1
+	var wrappedBodyErr string
 	wrapped := http.HandlerFunc(func(w http.ResponseWriter, r *http.Request) {
+		n, err := io.Copy(io.Discard, r.Body)
 		mu.Lock()
 		wrappedSeen = append(wrappedSeen, r.Method+" "+r.URL.RequestURI())
+		wrappedBody = n
+		wrappedBodyErr = ""
+		if err != nil {
+			wrappedBodyErr = err.Error()
+		}
 		mu.Unlock()
 		w.WriteHeader(299)
 	})
@@ -101,6 +111,24 @@ func TestVerifC13(t *testing.T) {
 		ws := append([]string(nil), wrappedSeen...)
 		mu.Unlock()
 		out.emit(map[string]interface{}{"kind": "route", "path": p, "status": rec.Code, "location": rec.Header().Get("Location"), "wrapped_saw": ws})
+	}
+	// request bodies on paths outside the shim prefix: any size, with and without a declared length
+	for _, size := range []int{0, 1, 1000, 1 << 20, 1<<20 + 1, 3 << 20} {
+		for _, declared := range []bool{true, false} {
+			mu.Lock()
+			wrappedBody, wrappedBodyErr = -1, ""
+			mu.Unlock()
+			var body io.Reader = bytes.NewReader(bytes.Repeat([]byte{'x'}, size))
+			if !declared {
+				body = io.MultiReader(body) // hides the length: ContentLength -1, as for a chunked upload
+			}
+			req := httptest.NewRequest("POST", "http://agent.local/api/upload?q=1", body)
+			rec := httptest.NewRecorder()
+			h.ServeHTTP(rec, req)
+			mu.Lock()
+			out.emit(map[string]interface{}{"kind": "route-body", "size": size, "declared_length": declared, "status": rec.Code, "wrapped_read": wrappedBody, "wrapped_err": wrappedBodyErr})
+			mu.Unlock()
+		}
 	}
 }
 
